@@ -2,6 +2,7 @@ package checks
 
 import (
 	"fmt"
+	"os"
 	"regexp"
 	"strconv"
 	"strings"
@@ -602,6 +603,9 @@ func runC11() int {
 	r := explore.New("C11")
 	if r.Thorough() {
 		r.SetDeadline(45 * time.Minute)
+	}
+	if d, err := strconv.Atoi(os.Getenv("VERIF_C11_DEADLINE_S")); err == nil && d > 0 { // authoring aid: smoke-test a tier
+		r.SetDeadline(time.Duration(d) * time.Second)
 	}
 	var seeds []*c11Seed
 	for _, m := range wgen.Micros {
